@@ -43,7 +43,8 @@ def build(case):
     t0 = ts[0]
     bg_steps = [step(t, table=[t], doc=None) for t in ts[:2]] + [step(t0, doc=t0, media=t0)]
     bg = {"background": {"id": gid(), "location": LOC, "keyword": "Background", "name": t0, "description": "", "steps": bg_steps}}
-    steps = [step(t) for t in ts] + [step("tbl", table=ts), step("doc", doc="\n".join(ts), media=t0), step("doc-no-media", doc=t0)]
+    steps = [step(t) for t in ts] + [step("tbl", table=ts), step("doc", doc="\n".join(ts), media=t0), step("doc-no-media", doc=t0),
+                                     step("media only", doc="plain content", media=t0), step("cell only", table=["plain", t0])]
     header = {"id": gid(), "location": LOC, "cells": [{"location": LOC, "value": h} for h in hs]}
     row = {"id": gid(), "location": LOC, "cells": [{"location": LOC, "value": v} for v in vs]}
     body = [row] + [{"id": gid(), "location": LOC, "cells": [{"location": LOC, "value": v} for v in r]} for r in case.get("more_rows", [])]
@@ -120,6 +121,12 @@ def check_interp(case, stats):
     ds2 = own[k + 2]["argument"]["docString"]
     if ds2 != {"content": L(ts[0])}:
         raise Violation(case, "doc string without media type %r, expected %r" % (ds2, {"content": L(ts[0])}))
+    ds3 = own[k + 3]["argument"]["docString"]
+    if ds3 != {"content": "plain content", "mediaType": L(ts[0])}:
+        raise Violation(case, "doc string whose only placeholder is in the media type: %r, expected %r" % (ds3, {"content": "plain content", "mediaType": L(ts[0])}))
+    c4 = [c["value"] for c in own[k + 4]["argument"]["dataTable"]["rows"][0]["cells"]]
+    if c4 != ["plain", L(ts[0])]:
+        raise Violation(case, "data table of a step without placeholder in its text: %r, expected %r" % (c4, ["plain", L(ts[0])]))
 
 
 def templates_for(h):
